@@ -500,3 +500,56 @@ func H_C05_lookup_every_scalar_kind() {
 	verifAssert(l.Contains(q) == (first >= 0), "Contains iff some element is the same value / identical container")
 	verifReach("end")
 }
+
+// A longer list holding every kind (nil, bool, float and both container kinds included): Delete with one to
+// three distinct indices in any order, Slice, and a second Delete — against the sequence model.
+func H_C05_every_kind_and_multi_delete() {
+	verifBound("LISTN", 6)
+	inner, obj := NewList(1), NewObject("k", 1)
+	x, f, s, b := nondetInt(), hFiniteFloat(), hBytesStr(1), nondetBool()
+	l := NewList(x, nil, s, f, inner, nil, b, obj)
+	m := []mval{{kind: TypeInt, i: x}, {kind: TypeNil}, {kind: TypeString, s: s}, {kind: TypeFloat, f: f},
+		{kind: TypeList, ref: inner}, {kind: TypeNil}, {kind: TypeBool, b: b}, {kind: TypeObject, ref: obj}}
+	// drop a prefix so that lengths 5..8 and different leading kinds are covered
+	for d := nondetIntRange(0, 3); d > 0; d-- {
+		l.Delete(0)
+		m = mDelete(m, 0)
+	}
+	n := len(m)
+	sl := l.Slice()
+	ok := len(sl) == n
+	for i := 0; i < n && i < len(sl); i++ {
+		ok = verifAnd(ok, hSameShallow(hSnapValue(m[i].kind, sl[i], false), m[i]))
+	}
+	verifAssert(ok, "Slice lists the elements in order")
+	k := nondetIntRange(1, 3)
+	idx := make([]int, k)
+	for q := range idx {
+		idx[q] = nondetIntRange(0, n-1)
+		for r := 0; r < q; r++ {
+			verifAssume(idx[r] != idx[q])
+		}
+	}
+	ret := l.Delete(idx...)
+	verifAssert(ret == l, "Delete returns the list")
+	// model: remove the chosen positions, highest first
+	gone := make([]bool, n)
+	for _, i := range idx {
+		gone[i] = true
+	}
+	var nm []mval
+	for i := 0; i < n; i++ {
+		if !gone[i] {
+			nm = append(nm, m[i])
+		}
+	}
+	verifAssert(hSameSlots(mval{elem: nm}, hSnapList(l, false)), "Delete of several distinct valid indices removes exactly those positions")
+	// a second step on the result
+	if len(nm) > 0 {
+		j := nondetIntRange(0, len(nm)-1)
+		l.Delete(j)
+		nm = mDelete(nm, j)
+		verifAssert(hSameSlots(mval{elem: nm}, hSnapList(l, false)), "after two operations every live list shows what the sequence model predicts")
+	}
+	verifReach("end")
+}
